@@ -11,8 +11,59 @@ abbrev PP := PedParams Fq
 
 def ped (h : Fq) (gs : List Fq) : PP := ⟨h, gs⟩
 
+abbrev St := Stream Fq Fq Fq
+
+/-- stream items: `s<hex>` scalar draw, `a<hex>` G1 draw, `b<hex>` G2 draw, `r<hex bytes>` raw -/
+def parseDraw (t : String) : Option (Draw Fq Fq Fq) :=
+  match t.toList with
+  | 's' :: r => (parseFq (String.ofList r)).map Draw.s
+  | 'a' :: r => (parseFq (String.ofList r)).map Draw.g1
+  | 'b' :: r => (parseFq (String.ofList r)).map Draw.g2
+  | 'r' :: r => (parseBytes (String.ofList r)).map Draw.raw
+  | _ => none
+
+def parseStream (s : String) : Option St :=
+  if s == "-" then some [] else (s.splitOn ",").mapM parseDraw
+
+def mkPk (g1 : Fq) (y1s : List Fq) (g2 x2 : Fq) (y2s : List Fq) : PubKey Fq Fq := ⟨g1, y1s, g2, x2, y2s⟩
+
+def tSig (σ : Sig Fq) : String := join [tS σ.s1, tS σ.s2]
+
+def tKeyPair (kp : KeyPair Fq Fq Fq) : List String :=
+  [tS kp.sk.x, tL kp.sk.ys, tS kp.sk.x1, tS kp.pk.g1, tL kp.pk.y1s, tS kp.pk.g2, tS kp.pk.x2, tL kp.pk.y2s]
+
 def dispatch (args : List String) : Option String :=
   match args with
+  -- Pointcheval–Sanders (C07, C08, C19)
+  | ["ps-verify", g1, y1s, g2, x2, y2s, s1, s2, ms] => do
+      let pk := mkPk (← parseFq g1) (← parseList y1s) (← parseFq g2) (← parseFq x2) (← parseList y2s)
+      pure (tB (psVerify Fq.e pk ⟨← parseFq s1, ← parseFq s2⟩ (← parseList ms)))
+  | ["ps-sign", x, ys, h, ms] => do
+      let sk : SecKey Fq Fq := ⟨← parseFq x, ← parseList ys, 0⟩
+      pure (tSig (Sig.sign sk (← parseFq h) (← parseList ms)))
+  | ["ps-rand", s1, s2, r] => do
+      pure (tSig (Sig.randomize (⟨← parseFq s1, ← parseFq s2⟩ : Sig Fq) (← parseFq r)))
+  | ["ps-blindrand", s1, s2, r, bf] => do
+      pure (tSig (Sig.blindAndRandomize (⟨← parseFq s1, ← parseFq s2⟩ : Sig Fq) (← parseFq r) (← parseFq bf)))
+  | ["ps-unblind", s1, s2, bf] => do
+      pure (tSig (Sig.unblind (⟨← parseFq s1, ← parseFq s2⟩ : Sig Fq) (← parseFq bf)))
+  | ["ps-blindsign", g1, x1, u, c] => do
+      let kp : KeyPair Fq Fq Fq := ⟨⟨0, [], ← parseFq x1⟩, mkPk (← parseFq g1) [] 0 0 []⟩
+      pure (tSig (Sig.blindSign kp (← parseFq u) (← parseFq c)))
+  | ["blind-msg", g1, y1s, bf, ms] => do
+      let pk := mkPk (← parseFq g1) (← parseList y1s) 0 0 []
+      pure (tS (blindMessage pk (← parseList ms) (← parseFq bf)))
+  | ["keygen", n, stream] => do
+      let n ← parseHex n; let st ← parseStream stream
+      match KeyPair.gen n st with
+      | none => pure (tV "none")
+      | some (kp, rest) => pure (join ([tV "ok"] ++ tKeyPair kp ++ [tN rest.length]))
+  | ["pk-validate", g1, y1s, g2, x2, y2s] => do
+      let pk := mkPk (← parseFq g1) (← parseList y1s) (← parseFq g2) (← parseFq x2) (← parseList y2s)
+      pure (tB (decide pk.Valid))
+  | ["sk-validate", x, ys, x1] => do
+      let sk : SecKey Fq Fq := ⟨← parseFq x, ← parseList ys, ← parseFq x1⟩
+      pure (tB (decide sk.Valid))
   -- Pedersen (C09)
   | ["commit", h, gs, bf, ms] => do
       let h ← parseFq h; let gs ← parseList gs; let bf ← parseFq bf; let ms ← parseList ms
